@@ -1,6 +1,7 @@
 SPECIFICATION Spec
 CONSTANTS
   NV = 5
+  MaxLoadBlockers = 0
   Heavy = FALSE
 INVARIANT TypeOK
 INVARIANT EmitState
